@@ -133,6 +133,17 @@ class FunctionStub(Ext):
             raise Unsupported("call of %s" % self.label)
         return VList([Matrix("%s#%d.%s" % (self.label, len(self.calls), c)) for c in self.outputs])
 
+    def sym_getattr(self, eng, name):
+        if name in ("forward", "reverse"):
+            def derive(eng, n, _k=name):
+                d = FunctionStub("%s.%s(%s)" % (self.label, _k, n))
+                d.derived_from = getattr(self, "derived_from", self)
+                return d
+            return stub(derive)
+        if name == "name":
+            return stub(lambda eng: self.label)
+        raise Unsupported("Function.%s" % name)
+
 
 class DepMatrix(Ext):
     def __init__(self, key, table):
@@ -145,6 +156,22 @@ class DepMatrix(Ext):
 
 class World:
     pass
+
+
+class Suppress(Ext):
+    """contextlib.suppress(*exceptions)"""
+
+    def __init__(self, excs):
+        self.excs = excs
+
+    def sym_getattr(self, eng, name):
+        if name == "__enter__":
+            return stub(lambda eng: None)
+        if name == "__exit__":
+            def ex(eng, typ, val, tb):
+                return typ is not None and any(typ.is_subclass_of(c) for c in self.excs if isinstance(c, VClass))
+            return stub(ex)
+        raise Unsupported("suppress.%s" % name)
 
 
 def install(eng, w):
@@ -231,7 +258,7 @@ def install(eng, w):
     enum = ModuleStub("enum", {"IntEnum": VClass("IntEnum")})
     eng.ext_modules.update({
         "casadi": casadi, "numpy": numpy, "os": os_mod, "pickle": pickle, "fnmatch": ModuleStub("fnmatch", {"filter": stub(fn_filter)}),
-        "contextlib": ModuleStub("contextlib", {}), "itertools": ModuleStub("itertools", {"chain": stub(lambda eng, *a: VList([]))}),
+        "contextlib": ModuleStub("contextlib", {"suppress": stub(lambda eng, *excs: Suppress(excs))}), "itertools": ModuleStub("itertools", {"chain": stub(lambda eng, *a: VList([]))}),
         "logging": log, "typing": typing, "enum": enum, "re": ModuleStub("re", {}), "sys": ModuleStub("sys", {"maxsize": 2 ** 63 - 1}),
         "collections": CollectionsStub(), "pymoca": ModuleStub("pymoca", {"__version__": w.current_version}),
     })
@@ -445,7 +472,7 @@ class SaveFile(Ext):
         raise Unsupported("file.%s" % name)
 
 
-def run_save(eng, w, model, options, pre_existing=None, codegen_libs=None, concurrent_writer=False):
+def run_save(eng, w, model, options, pre_existing=None, codegen_libs=None, concurrent_writer=False, real_codegen=False):
     """Execute the real save_model against a recording file system.  pre_existing: dict path label -> z3 Bool (the file may be there
     already: left by an interrupted earlier save or being written by another process).  Returns the record
     {opened: [(path, mode)], dumps: [(db, file)], replaced: [(src, dst)], removed: [...], raised: exception name or None}."""
@@ -530,7 +557,85 @@ def run_save(eng, w, model, options, pre_existing=None, codegen_libs=None, concu
     def codegen(eng, args, kwargs):
         rec["codegen"].append(args[2])
         return "lib:" + str(args[2])
-    eng.call_contracts["_codegen_model"] = codegen
+    if not real_codegen:
+        eng.call_contracts["_codegen_model"] = codegen
+    else:
+        # the REAL _codegen_model on a recording tool chain: ca.CodeGenerator writes <prefix><name>.c holding the functions added to it,
+        # the compiler turns a .c that exists into an object, the linker an object into the library; `content` maps a path to what the
+        # file holds.  A library file may be there before the call (left by an earlier save with whatever options): its existence and
+        # modification time are arbitrary, its content is "stale".
+        content = rec["content"] = {}
+        lab = lambda p_: p_.label if isinstance(p_, PathStr) else str(p_)
+
+        class CG(Ext):
+            def __init__(self, name):
+                self.name, self.added = str(name), []
+
+            def sym_getattr(self, eng, name):
+                if name == "add":
+                    return stub(lambda eng, fn, *a: self.added.append(fn))
+                if name == "generate":
+                    def generate(eng, prefix=""):
+                        path = lab(prefix) + self.name + ".c"
+                        content[path] = ("c-code", tuple(self.added))
+                        exists[path] = z3.BoolVal(True)
+                        return path
+                    return stub(generate)
+                raise Unsupported("CodeGenerator.%s" % name)
+        cg_cls = VClass("CodeGenerator")
+        cg_cls.constructor = lambda eng, c, a, k: CG(a[0])
+        casadi.attrs["CodeGenerator"] = cg_cls
+
+        class Compiler(Ext):
+            def sym_getattr(self, eng, name):
+                if name == "shared_lib_extension":
+                    return ".so"
+                if name == "SHARED_LIBRARY":
+                    return "shared_library"
+                if name == "object_filenames":
+                    return stub(lambda eng, files, **k: VList([PathStr(lab(f_)[:-2] + ".o") for f_ in eng.iterate(files)]))
+                if name == "compile":
+                    def compile_(eng, files, **k):
+                        outs = []
+                        for f_ in eng.iterate(files):
+                            if lab(f_) not in content or content[lab(f_)][0] != "c-code":
+                                raise PyRaise(make_exc("Exception", "CompileError: no such file %s" % lab(f_)))
+                            o_ = lab(f_)[:-2] + ".o"
+                            content[o_] = ("object", content[lab(f_)][1])
+                            exists[o_] = z3.BoolVal(True)
+                            outs.append(PathStr(o_))
+                        rec.setdefault("compiled", []).extend(lab(f_) for f_ in eng.iterate(files))
+                        return VList(outs)
+                    return stub(compile_)
+                if name in ("link", "link_shared_object"):
+                    def link(eng, *a, **k):
+                        objs, out = (a[1], a[2]) if name == "link" else (a[0], a[1])
+                        objs = eng.iterate(objs)
+                        if len(objs) != 1 or lab(objs[0]) not in content or content[lab(objs[0])][0] != "object":
+                            raise PyRaise(make_exc("Exception", "LinkError"))
+                        content[lab(out)] = ("library", content[lab(objs[0])][1])
+                        exists[lab(out)] = z3.BoolVal(True)
+                        rec.setdefault("linked", []).append(lab(out))
+                    return stub(link)
+                raise Unsupported("compiler.%s" % name)
+        eng.ext_modules["distutils"] = ModuleStub("distutils", {"ccompiler": ModuleStub("distutils.ccompiler", {"new_compiler": stub(lambda eng, *a, **k: Compiler())})})
+        eng.ext_modules["distutils.ccompiler"] = eng.ext_modules["distutils"].attrs["ccompiler"]
+        os_mod.attrs["path"].attrs["relpath"] = stub(lambda eng, p_, *a: p_ if isinstance(p_, PathStr) else PathStr(str(p_)))
+        os_mod.attrs["path"].attrs["basename"] = stub(lambda eng, p_: lab(p_).split("/")[-1])
+        base_getmtime = os_mod.attrs["path"].attrs["getmtime"]
+        lib_mtime = rec["library_mtime"] = {}
+
+        def getmtime2(eng, p_):
+            l_ = lab(p_)
+            if l_.endswith(".so") or l_.endswith(".c") or l_.endswith(".o"):
+                if not eng.branch(present(l_)):
+                    raise PyRaise(make_exc("FileNotFoundError", l_))
+                if l_ not in lib_mtime:
+                    lib_mtime[l_] = eng.input("mtime:" + l_, eng.fresh_int("mt_lib"))
+                return lib_mtime[l_]
+            return eng.call(base_getmtime, [p_], {})
+        os_mod.attrs["path"].attrs["getmtime"] = stub(getmtime2)
+        os_mod.attrs["path"].attrs["isfile"] = stub(lambda eng, a: present(lab(a)))
     eng.call_contracts["_merge_default_options"] = lambda eng, args, kwargs: options
     f = eng.find_function(MOD, "save_model")
     try:
